@@ -67,8 +67,16 @@ def check_learner_construction(ctx, cls, rule):
         ok = SX.equivalent(got, ref)[0] is True
     ctx.ob(rule, ok, c.file, q, "rho_i = rhomax^(2N/(2i+1))", norm_src(rs[0].value) if rs else "no rho", pull.lineno)
     ctors = [x for x in ast.walk(pull) if isinstance(x, ast.Call) and norm_src(x.func) == "self.algo"]
-    ctx.count("%s learner constructor calls in %s.pull" % (rule, cls), len(ctors), 2)
+    if not ctors:
+        raise AnalysisError("%s.pull never constructs a learner (anchor vanished)" % cls)
     for x in ctors:
+        if any(k.arg is None for k in x.keywords) or any(isinstance(a, ast.Starred) for a in x.args):
+            ctx.violation(rule, c.file, q, norm_src(x),
+                          "learner constructed with **/* arguments: that every family receives nu=nu_max, rho=rho_i and the caller's "
+                          "domain/partition cannot be established from the call (obligation not discharged)", x.lineno)
+    for x in ctors:
+        if any(k.arg is None for k in x.keywords):
+            continue
         kw = {k.arg: norm_src(k.value) for k in x.keywords}
         # which learner family this branch serves
         g = model.up(model.up(x))
